@@ -20,6 +20,8 @@ pub struct Scan {
     pub sort: Option<Sort>,
     /// makes every item name so long that no page token can be issued
     pub long: Option<bool>,
+    /// pads item i's name to `pad + i % 7` bytes: page tokens of lengths right around the 512 bound
+    pub pad: Option<u32>,
 }
 
 #[derive(Clone, Debug, Deserialize, Serialize, JsonSchema)]
@@ -27,6 +29,8 @@ pub struct Sel {
     pub size: u32,
     pub sort: Sort,
     pub long: bool,
+    #[serde(default)]
+    pub pad: u32,
     pub last_kind: u32,
     pub last_name: String,
 }
@@ -61,6 +65,26 @@ pub fn collection(size: u32, sort: Sort, long: bool) -> Vec<Item> {
     v
 }
 
+/// The same collection with every name padded (ASCII) to `pad + i % 7` bytes.
+pub fn collection_padded(size: u32, sort: Sort, pad: u32) -> Vec<Item> {
+    let mut v: Vec<Item> = (0..size)
+        .map(|i| {
+            let mut it = item(i, false);
+            let want = (pad + i % 7) as usize;
+            while it.name.len() < want {
+                it.name.push('p');
+            }
+            it
+        })
+        .collect();
+    match sort {
+        Sort::NameAsc => v.sort_by(|a, b| a.name.cmp(&b.name)),
+        Sort::NameDesc => v.sort_by(|a, b| b.name.cmp(&a.name)),
+        Sort::KindName => v.sort_by(|a, b| (a.kind, &a.name).cmp(&(b.kind, &b.name))),
+    }
+    v
+}
+
 fn after(all: &[Item], sel: &Sel) -> usize {
     // index of the first item strictly after the selector in the sort order
     all.iter()
@@ -75,21 +99,22 @@ fn after(all: &[Item], sel: &Sel) -> usize {
 async fn items_h(rq: RequestContext<()>, q: Query<PaginationParams<Scan, Sel>>) -> Result<HttpResponseOk<ResultsPage<Item>>, HttpError> {
     let pag = q.into_inner();
     let limit = rq.page_limit(&pag)?.get() as usize;
-    let (size, sort, long, start) = match &pag.page {
-        WhichPage::First(s) => (s.size, s.sort.unwrap_or(Sort::NameAsc), s.long.unwrap_or(false), None),
-        WhichPage::Next(sel) => (sel.size, sel.sort, sel.long, Some(sel.clone())),
+    let (size, sort, long, pad, start) = match &pag.page {
+        WhichPage::First(s) => (s.size, s.sort.unwrap_or(Sort::NameAsc), s.long.unwrap_or(false), s.pad.unwrap_or(0), None),
+        WhichPage::Next(sel) => (sel.size, sel.sort, sel.long, sel.pad, Some(sel.clone())),
     };
     if size > 50_000 {
         return Err(HttpError::for_bad_request(None, "size too large".into()));
     }
-    let all = collection(size, sort, long);
+    let all = if pad > 0 { collection_padded(size, sort, pad) } else { collection(size, sort, long) };
     let from = start.as_ref().map(|s| after(&all, s)).unwrap_or(0);
     let page: Vec<Item> = all[from..].iter().take(limit).cloned().collect();
-    let scan = Scan { size, sort: Some(sort), long: Some(long) };
+    let scan = Scan { size, sort: Some(sort), long: Some(long), pad: Some(pad) };
     Ok(HttpResponseOk(ResultsPage::new(page, &scan, |it: &Item, s: &Scan| Sel {
         size: s.size,
         sort: s.sort.unwrap(),
         long: s.long.unwrap(),
+        pad: s.pad.unwrap_or(0),
         last_kind: it.kind,
         last_name: it.name.clone(),
     })?))
@@ -131,7 +156,7 @@ impl Serialize for Unserializable {
 }
 async fn bad_token_h(_rq: RequestContext<()>, q: Query<PaginationParams<Scan, BadSel>>) -> Result<HttpResponseOk<ResultsPage<Item>>, HttpError> {
     let _ = q.into_inner();
-    let scan = Scan { size: 1, sort: None, long: None };
+    let scan = Scan { size: 1, sort: None, long: None, pad: None };
     Ok(HttpResponseOk(ResultsPage::new(vec![item(0, false)], &scan, |it: &Item, _: &Scan| BadSel { name: it.name.clone(), at: Unserializable, tail: 7 })?))
 }
 
